@@ -72,11 +72,13 @@ Lemma match_misc_tie : forall (c : cls) (l : obj),
 Proof. intros. repeat split; reflexivity. Qed.
 
 (* ---- inversion / application of abstract constraints ---- *)
-Definition mk (k : ackind) (a b : acon) : acon := match k with IsAnd => AAnd a b | IsOr => AOr a b end.
+Definition mk (k : ackind) (a b : acon) : acon := match k with IsAnd => AAnd a b | IsOr => AOr a b | IsAlt => AAlt a b end.
 
 Lemma invert_tie : forall (a b : acon) (k : constr),
   invert (AAnd a b) = mk gen_and_invert (invert a) (invert b) /\
   invert (AOr a b) = mk gen_or_invert (invert a) (invert b) /\
+  invert (AAlt a b) = mk gen_alt_invert (invert a) (invert b) /\
+  apply_acon (AAlt a b) = apply_acon (mk gen_alt_apply_as a b) /\ gen_union_value_is_alt = true /\
   invert ANull = ANull /\ apply_acon ANull = [] /\
   (gen_leaf_invert_flips = true /\ invert (ALeaf k) = ALeaf (flip k)) /\
   (gen_and_apply_concat = true /\ apply_acon (AAnd a b) = apply_acon a ++ apply_acon b) /\
